@@ -5,6 +5,7 @@
 import FileD.Prelude.Tok
 import FileD.Model.Worker
 import FileD.Spec.C06
+import FileD.Model.WorkerPipe
 namespace FileD.DrvC06
 open FileD Tok
 
@@ -27,7 +28,39 @@ def parseCalls : Nat → List String → Option (List (Nat × Bytes) × List Str
 def encCalls (cs : List (Nat × Bytes)) : String :=
   unwords (toString cs.length :: cs.flatMap (fun c => [toString c.1, Hex.enc c.2]))
 
+/-- `c06.pipe`: same arguments as `c06.turns`; the real worker runs against the real Pipeline.In
+    (decoder raw, same limit settings) and the result is what the pipeline's output received:
+      <nevents> (<off> <messagehex>)… <curOffset> <tailhex> <skip> -/
+def handlePipe (args impl : List String) : Option (String × String) :=
+  match args with
+  | mx :: cut :: sk :: bs :: _buf :: nt :: rest => do
+    let max ← nat? mx
+    let cutOff ← bool? cut
+    let skip ← bool? sk
+    let base ← nat? bs
+    let n ← nat? nt
+    let (ts, r) ← parseTurns n rest
+    if r ≠ [] then none
+    let cfg : Worker.Cfg := ⟨max, cutOff⟩
+    let (job, out) := Worker.turns cfg ⟨base, [], skip⟩ ts
+    let m := match WorkerPipe.deliver cfg out with
+      | .error p => panicTok p
+      | .ok evs => unwords [encCalls evs, toString job.curOffset, Hex.enc job.tail, ofBool job.skip]
+    let p := match impl with
+      | nc :: irest =>
+        match nat? nc with
+        | some k =>
+          match parseCalls k irest with
+          | some (evs, _) =>
+            if SpecC06.pipeHolds cfg skip base (ts.flatten.flatten) evs then "ok" else "fail"
+          | none => "bad-impl"
+        | none => if nc.startsWith "panic" then "fail" else "bad-impl"
+      | [] => "bad-impl"
+    pure (m, p)
+  | _ => none
+
 def handle (cmd : String) (args impl : List String) : Option (String × String) :=
+  if cmd = "c06.pipe" then handlePipe args impl else
   if cmd ≠ "c06.turns" then none else
   match args with
   | mx :: cut :: sk :: bs :: _buf :: nt :: rest => do
